@@ -81,7 +81,15 @@ VARIANTS = [
     {"perf": {"t1": {"caps": {"frontier": 1}}}, "_perf_enabled": True},
     {"perf": {"t1": {"caps": {"frontier": 1}}}, "_perf_enabled": False},
     {"t2": {"hybrid": {"enabled": True, "lambda_graph": 1.0, "edge_threshold": 0.0}}},
+    # scheduler slice budgets (huge quantum: only budget-driven effects); neighbours differ in one budget
+    {"scheduler": {"enabled": True, "quantum_ms": 10 ** 8, "budgets": {"wall_ms": 10 ** 9, "t1_iters": 1}}},
+    {"scheduler": {"enabled": True, "quantum_ms": 10 ** 8, "budgets": {"wall_ms": 10 ** 9, "t1_iters": 3}}},
+    {"scheduler": {"enabled": True, "quantum_ms": 10 ** 8, "budgets": {"wall_ms": 10 ** 9, "t1_pops": 1}}},
+    {"scheduler": {"enabled": True, "quantum_ms": 10 ** 8, "budgets": {"wall_ms": 10 ** 9, "t1_pops": 7}}},
+    {"scheduler": {"enabled": True, "quantum_ms": 10 ** 8, "budgets": {"wall_ms": 10 ** 9, "t2_k": 1}}},
+    {"scheduler": {"enabled": True, "quantum_ms": 10 ** 8, "budgets": {"wall_ms": 10 ** 9, "t2_k": 4}}},
 ]
+NEIGHBOURS = {15: [16], 16: [15], 18: [19], 19: [18, 0], 20: [21, 0], 21: [20], 22: [23, 0], 23: [22]}
 
 DIAG_PREFIXES = ("cache_", "t1.cache_", "t2.cache_")
 
@@ -141,30 +149,30 @@ class CacheMachine(RuleBasedStateMachine):
         self.cache_cfg = cc
         # a machine works with a few config variants only, so the same variant recurs (cache hits) and
         # single-leaf neighbours meet (perf gate open/closed with the caps kept)
-        if 15 in vs and 16 not in vs:
-            vs = vs + [16]
-        if 16 in vs and 15 not in vs:
-            vs = vs + [15]
+        for v in list(vs):
+            for nb in NEIGHBOURS.get(v, []):
+                if nb not in vs:
+                    vs = vs + [nb]
         self.variants = vs
         self.history.append({"op": "init", "cache": cc, "variants": vs})
 
     # ---- rules
     @rule(i=st.sampled_from([0, 1]), agent=st.sampled_from(AGENTS), text=st.sampled_from(TEXTS),
-          v=st.integers(0, 4), adv=st.sampled_from([0, 0, 0, 1000, 4 * 86400 * 1000]))
+          v=st.integers(0, 7), adv=st.sampled_from([0, 0, 0, 1000, 4 * 86400 * 1000]))
     def turn(self, i, agent, text, v, adv):
         v = self.variants[v % len(self.variants)]
         self._turn(i, agent, text, v, adv)
 
     # the same rule registered three more times: turns should make up most of a history
-    @rule(i=st.sampled_from([0, 1]), agent=st.sampled_from(AGENTS), text=st.sampled_from(TEXTS), v=st.integers(0, 4))
+    @rule(i=st.sampled_from([0, 1]), agent=st.sampled_from(AGENTS), text=st.sampled_from(TEXTS), v=st.integers(0, 7))
     def turn_b(self, i, agent, text, v):
         self._turn(i, agent, text, self.variants[v % len(self.variants)], 0)
 
-    @rule(i=st.sampled_from([0, 1]), agent=st.sampled_from(AGENTS), text=st.sampled_from(TEXTS), v=st.integers(0, 4))
+    @rule(i=st.sampled_from([0, 1]), agent=st.sampled_from(AGENTS), text=st.sampled_from(TEXTS), v=st.integers(0, 7))
     def turn_c(self, i, agent, text, v):
         self._turn(i, agent, text, self.variants[v % len(self.variants)], 0)
 
-    @rule(i=st.sampled_from([0, 1]), text=st.sampled_from(TEXTS), v=st.integers(0, 4))
+    @rule(i=st.sampled_from([0, 1]), text=st.sampled_from(TEXTS), v=st.integers(0, 7))
     def turn_d(self, i, text, v):
         self._turn(i, "A", text, self.variants[v % len(self.variants)], 0)
 
@@ -196,14 +204,24 @@ class CacheMachine(RuleBasedStateMachine):
                 hit = True
         except Exception:
             pass
-        oid = id(c["t2_obj"])
-        if oid in self.seen_t2_objs:
-            hit = True
-        self.seen_t2_objs.add(oid)
-        self._keep = getattr(self, "_keep", [])
-        self._keep.append(c["t2_obj"])  # keep alive so ids are not reused
+        if c.get("t2_obj") is not None:
+            oid = id(c["t2_obj"])
+            if oid in self.seen_t2_objs:
+                hit = True
+            self.seen_t2_objs.add(oid)
+            self._keep = getattr(self, "_keep", [])
+            self._keep.append(c["t2_obj"])  # keep alive so ids are not reused
         if hit and self.mutated:
             self.hits_after_mutation += 1
+        if ("t1" in c) != ("t1" in f) or ("t2" in c) != ("t2" in f):
+            raise Violation(f"stages executed differ with caches on: {sorted(k for k in ('t1', 't2') if k in c)} vs "
+                            f"{sorted(k for k in ('t1', 't2') if k in f)}", self.history, "stages-differ")
+        if "t2" not in c:  # the turn yielded at the T1 boundary (slice budget reached)
+            if c["t1"] != f["t1"]:
+                raise Violation(f"T1 result differs with caches on: {c['t1']} vs fresh {f['t1']}", self.history, "t1-differs")
+            if c["line"] != f["line"]:
+                raise Violation(f"utterance differs with caches on: {c['line']!r} vs {f['line']!r}", self.history, "utterance")
+            return
         if c["t1"] != f["t1"]:
             raise Violation(f"T1 result differs with caches on: {c['t1']} vs fresh {f['t1']}", self.history, self._sig("t1", c, f))
         if c["t2"] != f["t2"]:
